@@ -27,6 +27,7 @@ class _Shim:
     def __init__(self, sch):
         self.sch = sch
         self.holder = None
+        sch.shims.append(self)
 
     def __enter__(self):
         self.sch.lock_acquire(self)
@@ -60,6 +61,24 @@ def shared_names(cls):
     return names
 
 
+class ThreadingShim:
+    """stands in for the `threading` module inside the module under test: every Lock it creates - in __init__
+    or lazily - is a cooperative lock known to the scheduler"""
+
+    def __init__(self, sch):
+        import threading as _t
+        self._t = _t
+        self._sch = sch
+
+    def Lock(self):
+        return _Shim(self._sch)
+
+    RLock = Lock
+
+    def __getattr__(self, name):
+        return getattr(self._t, name)
+
+
 class Scheduler:
     def __init__(self, cls, impl_getter):
         self.cls = cls
@@ -79,6 +98,7 @@ class Scheduler:
                 if pts:
                     self.codes[code] = pts
         self.cv = threading.Condition()
+        self.shims = []           # cooperative locks created for / during the current execution
         self.reset()
 
     def reset(self):
@@ -151,7 +171,7 @@ class Scheduler:
         if tid is None:
             return
         while True:
-            self._yield(('acq', 'lock'))
+            self._yield(('acq', id(shim)))
             with self.cv:
                 if shim.holder is None:
                     shim.holder = tid
@@ -175,8 +195,7 @@ class Scheduler:
             self.trace.append({'t': tid, 'k': 'rel', 'v': 0})
             for t, s in self.state.items():
                 if s == 'blocked':
-                    self.state[t] = 'wait'
-                    self.pending[t] = ('acq', 'lock')
+                    self.state[t] = 'wait'        # its pending operation is still the acquisition it blocked on
 
     # ---- controller ------------------------------------------------------------------------------
     def run(self, bodies, choices, max_steps=10000, chooser=None, shim=None):
@@ -223,7 +242,7 @@ class Scheduler:
                 if starting:
                     en = starting[:1]      # a thread start commutes with everything: no branching
                 if chooser is not None:
-                    pick = chooser(step, en, {t: self.pending.get(t) for t in en}, shim.holder if shim is not None else None)
+                    pick = chooser(step, en, {t: self.pending.get(t) for t in en}, {id(x): x.holder for x in self.shims})
                 else:
                     pick = choices[step] if step < len(choices) and choices[step] in en else en[0]
                 enabled_sets.append(en)
@@ -236,6 +255,7 @@ class Scheduler:
                 self.cv.notify_all()
         for th in threads:
             th.join(timeout=10)
+        self.shims = []
         return self.trace, enabled_sets, chosen
 
 
@@ -293,14 +313,12 @@ def independent(a, b, ta, tb, holder):
         return False
     if a[0] == 'start' or b[0] == 'start':
         return True
+    holder = holder or {}
     if a[0] == 'acq' or b[0] == 'acq':
         if a[0] == 'acq' and b[0] == 'acq':
-            return False
-        other = tb if a[0] == 'acq' else ta
-        return holder != other
-    if holder in (ta, tb):
-        # the holder's transition may contain the release: it only conflicts with lock operations (handled above)
-        pass
+            return a[1] != b[1]                    # two acquisitions conflict only on the same lock
+        lock, other = (a[1], tb) if a[0] == 'acq' else (b[1], ta)
+        return holder.get(lock) != other           # the holder's transition may contain the release
     return not (a[1] == b[1] and (a[0] == 'store' or b[0] == 'store'))
 
 
